@@ -18,7 +18,7 @@ I64_MAX, I64_MIN = 9223372036854775807, -9223372036854775808
 
 POOL = [
     str(I64_MAX), str(I64_MIN), "0", "-1", "1.5", '""', '"hé✓🙂"', "[]", "[[1], [2, 3]]", '(1, "a")',
-    'Dict["a" => 1]', "None", "Some(1)", "fun(x) { x }", "Unit",
+    'Dict["a" => 1]', "None", "Some(1)", "fun(x) { x }", "Unit", 'Path{ p: "rel.gdn" }',
 ]
 BOUNDARY = [I64_MIN, I64_MIN + 1, -2, -1, 0, 1, 2, 3, 63, 64, 4294967296, I64_MAX - 1, I64_MAX]
 
@@ -41,7 +41,10 @@ def typed_values(ty, scratch):
     if ty == "Float":
         return ["2.5"]
     if ty == "Path":
-        return [P("exists.txt"), P("missing.txt"), P("sub")]
+        # existing / missing / directory inside the scratch tree, a RELATIVE path (resolved against the cwd =
+        # scratch, or refused), an absolute path whose parent does not exist, the empty path, a built-in name
+        return [P("exists.txt"), P("missing.txt"), P("sub"), 'Path{ p: "rel.gdn" }',
+                'Path{ p: "/nonexistent-limits/x.gdn" }', 'Path{ p: "" }', 'Path{ p: "__snippet.gdn" }']
     if ty.startswith("List<String>"):
         return ['["a", "b"]']
     if ty.startswith("List<Int>"):
@@ -65,6 +68,11 @@ def call_exprs(arm, rng, scratch, per_arm):
         fn = name if arm["namespaceFile"] == "__prelude.gdn" else "%s::%s" % (alias_of(arm["namespaceFile"]), name)
         receivers = [None]
     tuples = []
+    # first: every combination of the well-typed values at the declared arity (kept even when sampling)
+    import itertools
+    typed = [typed_values(ty, scratch) or ["1"] for ty in arm["params"][:declared]]
+    prio = [list(t) for t in itertools.islice(itertools.product(*typed), 60)] if typed else []
+    tuples += prio
     for k in range(0, declared + 2):
         pools = []
         for j in range(k):
@@ -84,25 +92,32 @@ def call_exprs(arm, rng, scratch, per_arm):
                     t[j] = v
                     tuples.append(t)
             tuples += [[rng.choice(p) for p in pools] for _ in range(30)]
-    calls = []
-    for t in tuples:
-        if arm["name"] == "ShellRun" and t and t[0].startswith('"') and t[0] != '""':
-            continue   # never spawn a real command
-        for r in (receivers if not arm["isMethod"] else [receivers[0]] + rng.sample(receivers, 3)):
-            if r is None:
-                calls.append("%s(%s)" % (fn, ", ".join(t)))
-            else:
-                recv = r if re.match(r'^["\[\w(]', r) and not r.startswith("fun") and not r.startswith("-") else "(%s)" % r
-                calls.append("%s.%s(%s)" % (recv, name, ", ".join(t)))
-    seen, out = set(), []
-    for c in calls:
-        if c not in seen:
-            seen.add(c)
-            out.append(c)
-    if len(out) > per_arm:
-        head = out[:per_arm // 2]
-        out = head + rng.sample(out[per_arm // 2:], per_arm - len(head))
-    return out
+    def mk(r, t):
+        if r is None:
+            return "%s(%s)" % (fn, ", ".join(t))
+        recv = r if re.match(r'^["\[\w(]', r) and not r.startswith("fun") and not r.startswith("-") else "(%s)" % r
+        return "%s.%s(%s)" % (recv, name, ", ".join(t))
+
+    def dedup(xs):
+        seen, out = set(), []
+        for c in xs:
+            if c not in seen:
+                seen.add(c)
+                out.append(c)
+        return out
+    tuples = [t for t in tuples
+              if not (arm["name"] == "ShellRun" and t and t[0].startswith('"') and t[0] != '""')]   # never spawn a command
+    good = receivers[0]
+    g1 = dedup(mk(good, t) for t in tuples[:len(prio)])            # well-typed receiver, well-typed tuples
+    g2 = dedup(mk(good, t) for t in tuples[len(prio):])            # well-typed receiver, swept / random tuples
+    g3 = dedup(mk(rng.choice(receivers), t) for t in tuples) if arm["isMethod"] else []   # any receiver
+    g2 = [c for c in g2 if c not in set(g1)]
+    g3 = [c for c in g3 if c not in set(g1) and c not in set(g2)]
+    if len(g2) > per_arm:
+        g2 = rng.sample(g2, per_arm)
+    if len(g3) > per_arm // 3:
+        g3 = rng.sample(g3, per_arm // 3)
+    return g1[:60] + g2 + g3
 
 
 def make_scratch(d):
